@@ -334,6 +334,13 @@ def _p_values_worker(
         node_1 = f'{level}/{sibling_pair[1]}'
         node_2 = f'{level}/{sibling_pair[2]}'
 
+        # as in score_differential_genes: clusters with fewer than
+        # two cells cannot have markers (their variance is undefined)
+        n_cells_min = 2
+        if cluster_stats[node_1]['n_cells'] < n_cells_min \
+                or cluster_stats[node_2]['n_cells'] < n_cells_min:
+            continue
+
         p_values = diffexp_p_values_from_stats(
             node_1=node_1,
             node_2=node_2,
